@@ -13,6 +13,8 @@ type Context struct {
 	Variables      map[string]*list.List
 	DontAutoCreate bool
 	datetimeLayout string
+	// how many eval operators are being evaluated around this context
+	evalDepth int
 }
 
 func (n *Context) SingleReadonlyChildContext(candidate *CandidateNode) Context {
@@ -55,7 +57,7 @@ func (n *Context) SetVariable(name string, value *list.List) {
 }
 
 func (n *Context) ChildContext(results *list.List) Context {
-	clone := Context{DontAutoCreate: n.DontAutoCreate, datetimeLayout: n.datetimeLayout}
+	clone := Context{DontAutoCreate: n.DontAutoCreate, datetimeLayout: n.datetimeLayout, evalDepth: n.evalDepth}
 	clone.Variables = make(map[string]*list.List)
 	for variableKey, originalValueList := range n.Variables {
 
